@@ -155,16 +155,16 @@ func DNSQuery(id uint16, name string, qtype, qclass uint16, rd bool) *dns.Msg {
 // ---------- RDP ----------
 
 type RDPParts struct {
-	Cookie   string // "Cookie: mstshash=<hash>\r\n" form: hash only; "" = absent
-	TokenIP  *[4]byte
+	Cookie    string // "Cookie: mstshash=<hash>\r\n" form: hash only; "" = absent
+	TokenIP   *[4]byte
 	TokenPort uint16
-	Custom   string // custom info, "" = absent
-	NegReq   bool
-	Flags    byte
+	Custom    string // custom info, "" = absent
+	NegReq    bool
+	Flags     byte
 	Protocols uint32
-	CorrInfo bool
-	Identity [16]byte
-	Reserved [16]byte
+	CorrInfo  bool
+	Identity  [16]byte
+	Reserved  [16]byte
 	// TokenPortHigh > 0: the port field of the routing token is written as a decimal beyond 16 bits whose low
 	// 16 bits are those of TokenPort (not a port number at all)
 	TokenPortHigh int
@@ -288,6 +288,17 @@ func HTTP1(method, target, version string, hdrs [][2]string, crlf bool, body str
 	sb.WriteString(nl)
 	sb.WriteString(body)
 	return []byte(sb.String())
+}
+
+// H2PriorRawBlock builds an HTTP/2 prior-knowledge connection start whose HEADERS frame carries the given header
+// block as is (for blocks no encoder would produce).
+func H2PriorRawBlock(block []byte) []byte {
+	var buf bytes.Buffer
+	buf.WriteString(http2.ClientPreface)
+	fr := http2.NewFramer(&buf, nil)
+	_ = fr.WriteSettings()
+	_ = fr.WriteHeaders(http2.HeadersFrameParam{StreamID: 1, BlockFragment: block, EndStream: true, EndHeaders: true})
+	return buf.Bytes()
 }
 
 // H2Prior builds an HTTP/2 prior-knowledge connection start: preface, `pre`
